@@ -59,6 +59,8 @@ class Ctx:
         self.notes = []
         self.not_decided = []
         self.assumptions = []
+        self.extra = {}           # thorough tier: other configurations, rule self-test
+        self.extra_rc = 0
 
     def rule(self, rid, text, engine, floor=None, exhaustive=False):
         r = Rule(self, rid, text, engine, floor, exhaustive)
@@ -124,10 +126,11 @@ class Ctx:
                 "repo": REPO,
                 "trusted_base": ["rustc nightly front-end (-Zunpretty=expanded, MIR)", "syn 2 parser", "hand-written reference tables under /verif/spec (from the WHATWG specification)", "the rule code"],
                 "checker_cmd": f"./check {self.prop} --tier {self.tier}",
+                **self.extra,
             },
             "assumptions": self.assumptions,
             "wall_s": round(time.time() - self.t0, 3),
-            "violations": len(new_v),
+            "violations": len(new_v) + (1 if self.extra_rc == 1 else 0),
         }
         evdir = os.environ.get("VERIF_EVIDENCE_DIR", os.path.join(VERIF, "evidence"))
         os.makedirs(evdir, exist_ok=True)
@@ -148,5 +151,7 @@ class Ctx:
                 print(f"violation: rule={v['rule']} key={v['key']} :: {v['msg']}" + (f" @ {v['where']}" if v.get("where") else ""))
                 print(f"VIOLATION property={self.prop} replay={path}")
             return 1
+        if self.extra_rc:
+            return self.extra_rc
         print(f"OK property={self.prop} tier={self.tier} rules={len(self.rules)} instances={obligations} known_findings={len(seen_known)} wall={ev['wall_s']}s")
         return 0
